@@ -1,6 +1,8 @@
 import PV.Proofs.MemoRefines
 import PV.Proofs.MemoInst
 import PV.Proofs.MemoOpt
+import PV.Proofs.MemoTable
+import PV.Generated.Caching
 import PV.Properties.C02
 /-
   C05 — memoization and mapper optimization are observationally transparent: property theorems.
@@ -270,5 +272,337 @@ example :
       = [false, false, false, false, false, true] := by
   intro f x y e
   exact ⟨by rfl, by rfl, by rfl⟩
+
+/-! ### T-gen: the cache protocol regenerated from the source of the tree under test
+
+`extract/caching.py` reads, on every run, the live classes and the live optimizer into
+`PV/Generated/Caching.lean`.  The theorems below say that what was read IS what the model above was
+written from; they stop holding (and the check reports them as broken, together with the failing
+histories the correspondence streams find) when the source changes the key, the order of look-up,
+handler call and store, the hit test, a store on one of the two dispatch paths, the place a caching
+class takes in an MRO, or what a rewrite of the optimizer does. -/
+
+open PV.Generated
+
+/-- **The cache key of the current source.**  `CachedMapper.get_cache_key` takes `(expr, *args,
+**kwargs)` and returns the tuple `(type(expr), expr, args, immutabledict(kwargs))` — the key the
+optimizer model starts from (`Code.stock`) — and Python's `==` on two such tuples is the model's
+key equality `Key.eq` (the `keq` of every `cachedSpec`).  Dropping `type(expr)` or `args` from the
+tuple, or reordering it, changes the regenerated table and breaks this theorem. -/
+theorem key_shape_current (a b : Key) :
+    c05GetCacheKey = c05ExpectedGetKey ∧
+    c05GetCacheKey.sig = Code.stock.getKeySig ∧
+    c05GetCacheKey.items = Code.stock.getKeyBody.map .part ∧
+    c05TupleEq c05GetCacheKey.items a b = Key.eq a b := by
+  have h : c05GetCacheKey = c05ExpectedGetKey := by decide
+  refine ⟨h, by rw [h]; rfl, by rw [h]; rfl, ?_⟩
+  rw [h]; exact c05TupleEq_stock a b
+
+/-- non-vacuity: the regenerated key separates `4` from `4.0` and `("_a",)` from `("_b",)`; without
+its first component it would not separate the scalars -/
+example :
+    c05TupleEq c05GetCacheKey.items ⟨.const (.int 4), {}⟩ ⟨.const (.flt "4.0" 4 1), {}⟩ = false ∧
+    c05TupleEq c05GetCacheKey.items ⟨.var "x", { args := [.str "_a"] }⟩
+      ⟨.var "x", { args := [.str "_b"] }⟩ = false ∧
+    c05TupleEq (c05GetCacheKey.items.drop 1) ⟨.const (.int 4), {}⟩ ⟨.const (.flt "4.0" 4 1), {}⟩
+      = true := by
+  decide
+
+/-- **The key of the CSE mix-in in the current source** is `(expr, *args)`: Python's `==` on two
+such tuples is `Key.cseEq` (the `keq` of `cseMixinSpec`): no type component, positional arguments
+spliced in, no keyword arguments (the method takes none). -/
+theorem cse_key_shape_current (a b : Key) :
+    c05CseMixinKey = [.part .expr, .splatArgs] ∧
+    c05CseMixinMethod.sig = ⟨true, false⟩ ∧
+    c05TupleEq c05CseMixinKey a b = Key.cseEq a b := by
+  have h : c05CseMixinKey = [.part .expr, .splatArgs] := by decide
+  refine ⟨h, by rfl, ?_⟩
+  rw [h]; exact c05TupleEq_cse a b
+
+example : c05TupleEq c05CseMixinKey ⟨.cse (.const (.int 1)) none "", {}⟩
+    ⟨.cse (.const (.bool true)) none "", {}⟩ = true ∧
+    c05TupleEq c05CseMixinKey ⟨.var "x", { args := [.int 1] }⟩ ⟨.var "x", { args := [.int 2] }⟩ = false ∧
+    c05TupleEq c05CseMixinKey ⟨.var "x", { args := [.int 1] }⟩ ⟨.var "x", {}⟩ = false := by
+  decide
+
+/-- **The cache protocol of the current source is `callC`.**  Run the body of
+`CachedMapper.__call__` as regenerated from the source (statement by statement: `dict.get` with the
+walrus-bound key and the sentinel default, `is not` test, method look-up, handler call, store,
+return) for ANY handler family, cache state, dispatch path (`hasName`/`hasMethod`: method path or
+`rec_fallback` path) and with `self.rec` inside the handlers being the memoizing dispatcher: the
+outcome — answer or exception, cache, computation log, hit/miss trace — is exactly that of the
+model's `callC`, to which `cached_refines_plain`, `cache_inv` and `at_most_once` apply.  Moving a
+store before the handler call, testing the cached result for truth instead of identity with the
+sentinel, or dropping the store on the fallback path changes the regenerated body and breaks this
+theorem. -/
+theorem cache_protocol_current (S : Spec K X R) (n : Nat) (k : K) (s : St K R)
+    (hasName hasMethod : Bool) (falsy isNone : R → Bool) (hc : S.cacheable k = true) :
+    c05Run c05CachedMapperCall (c05CallCtx S n k hasName hasMethod falsy isNone) s
+      = .ofOption (callC S (n+1) k s) := by
+  have h : c05CachedMapperCall = c05ExpectedCall := by rfl
+  rw [h]; exact c05Run_expectedCall S n k s hasName hasMethod falsy isNone hc
+
+/-- non-vacuity, and the reading is sensitive to exactly the edits it is meant to catch: on a
+counter whose handler answers `0` (a falsy result) the regenerated body computes `x` once over two
+calls; the same body with `result = self._cache.get(key)` / `if result:` computes it twice; with the store of the method
+path moved before the handler call it has no meaning at all. -/
+example :
+    let S : Spec Key DepErr Nat := cachedSpec (fun _ => .ret 0) .unhashable
+    let ctx := c05CallCtx S 3 ⟨.var "x", {}⟩ true true (fun r => r == 0) (fun _ => false)
+    let twice (m : C05Method) : Option Nat := match c05Run m ctx {} with
+      | .done _ s1 => (match c05Run m ctx s1 with | .done _ s2 => some s2.log.length | _ => none)
+      | _ => none
+    let truthyTest : C05Method := { c05CachedMapperCall with
+      body := (c05CachedMapperCall.body.set 0 (.assign "result" (.cacheGet (.selfAttr "_cache")
+          "cache_key" (some (.getKeyCall true true)) none))).set 1
+        (.ifThen (.truthy "result") [.ret "result"] []) }
+    let storeFirst : C05Method := { c05CachedMapperCall with
+      body := c05CachedMapperCall.body.set 3 (.ifThen (.isNot "method_name" .pyNone) [
+        .assign "method" (.selfMethod "method_name"),
+        .ifThen (.isNot "method" .pyNone) [
+          .store (.selfAttr "_cache") "cache_key" "result",
+          .assign "result" (.callVar "method" true true),
+          .ret "result"] []] []) }
+    twice c05CachedMapperCall = some 1 ∧ twice truthyTest = some 2 ∧ twice storeFirst = none := by
+  intro S ctx twice truthyTest storeFirst
+  exact ⟨by rfl, by rfl, by rfl⟩
+
+/-- … and without the store on the fallback path a constant (dispatched through `rec_fallback`:
+no `mapper_method`) is computed at every call -/
+example :
+    let S : Spec Key DepErr Nat := cachedSpec (fun _ => .ret 7) .unhashable
+    let ctx := c05CallCtx S 3 ⟨.const (.int 4), {}⟩ false false (fun r => r == 0) (fun _ => false)
+    let twice (m : C05Method) : Option Nat := match c05Run m ctx {} with
+      | .done _ s1 => (match c05Run m ctx s1 with | .done _ s2 => some s2.log.length | _ => none)
+      | _ => none
+    let noFallbackStore : C05Method := { c05CachedMapperCall with
+      body := c05CachedMapperCall.body.eraseIdx 5 }
+    twice c05CachedMapperCall = some 1 ∧ twice noFallbackStore = some 0 := by
+  intro S ctx twice noFallbackStore
+  exact ⟨by rfl, by rfl⟩
+
+/-- **The CSE mix-in of the current source is `callC` on its own dictionary.**  The body of
+`CSECachingMapperMixin.map_common_subexpression` as regenerated (dictionary created lazily per
+instance, key `(expr, *args)`, `try: return ccd[key]` / `except KeyError:` compute with
+`map_common_subexpression_uncached`, store, return) is, on the nodes it is the handler of
+(`cacheable`), the model's `callC` — in particular `callC (cseMixinSpec h _)`. -/
+theorem cse_protocol_current (S : Spec K X R) (n : Nat) (k : K) (s : St K R)
+    (falsy isNone : R → Bool) (hc : S.cacheable k = true) :
+    c05Run c05CseMixinMethod (c05CseCtx S n k falsy isNone) s = .ofOption (callC S (n+1) k s) := by
+  have h : c05CseMixinMethod = c05ExpectedCse := by rfl
+  rw [h]; exact c05Run_expectedCse S n k s falsy isNone hc
+
+example :
+    let S : Spec Key DepErr (List Expr) := cseMixinSpec (depsProg {}) .unhashable
+    let k : Key := ⟨.cse (.var "x") none "", {}⟩
+    (match c05Run c05CseMixinMethod (c05CseCtx S 3 k (fun _ => false) (fun _ => false)) {} with
+      | .done (.ok r) s => some (r, s.cache.length, s.trace.map (·.1))
+      | _ => none) = some ([.var "x"], 1, [false]) := by
+  intro S k; rfl
+
+/-- **Where the caches live, in the current source.**  The sentinel the look-up of
+`CachedMapper.__call__` uses is bound exactly once, at module level, to a fresh `object()` (no
+mapper result can be identical to it); `_cache` is created empty in `CachedMapper.__init__` and
+`_cse_cache_dict` lazily per instance; no class body on the MRO of any caching class binds either
+attribute (a class-level dictionary would be shared by all instances, where the model starts every
+instance from the empty state `{}`). -/
+theorem cache_state_current :
+    c05Sentinels = [("_NOT_IN_CACHE", true)] ∧
+    c05DictInits = [⟨"CachedMapper", "_cache", true⟩,
+                    ⟨"CSECachingMapperMixin", "_cse_cache_dict", true⟩] ∧
+    c05ClassLevelCaches = [] := by
+  decide
+
+/-! #### which classes the protocol governs -/
+
+def cmCall := "pymbolic.mapper.CachedMapper.__call__"
+
+/-- the caching classes whose `__call__` does not reach `CachedMapper.__call__` properly (finding
+`cached-stringify-call-unbound`) -/
+def c05BrokenCall : List String := ["CachedStringifyMapper"]
+
+/-- is `c` dispatched by `CachedMapper.__call__`: `__call__` AND `rec` (what the handlers recurse
+through) resolve to that one function, `get_cache_key` to `CachedMapper`'s, `rec_fallback` to
+`Mapper`'s dispatch, and `__init__` reaches `CachedMapper.__init__` -/
+def c05Wrapped (c : C05Class) : Bool :=
+  c05Resolve c05Defines "__call__" c.mro == some cmCall &&
+  c05Resolve c05Defines "rec" c.mro == some cmCall &&
+  c05Resolve c05Defines "get_cache_key" c.mro == some "pymbolic.mapper.CachedMapper.get_cache_key" &&
+  c05Resolve c05Defines "rec_fallback" c.mro == some "pymbolic.mapper.Mapper.rec_fallback" &&
+  c.initReachesCacheInit
+
+/-- **The memoizing classes of the current source**: every subclass of `CachedMapper` and of
+`CSECachingMapperMixin` defined in a pymbolic module (a new one must be looked at). -/
+theorem caching_classes_current :
+    c05CachedClasses.map (·.name) =
+      ["DerivativeSourceAndNablaComponentCollector", "PymbolicToASTMapper", "CachedCollector",
+       "CachedCombineMapper", "CachedIdentityMapper", "CachedWalkMapper", "NodeCountMapper",
+       "CachedDependencyMapper", "CachedEvaluationMapper", "CachedFloatEvaluationMapper",
+       "FlopCounter", "CachedStringifyMapper", "CachedSubstitutionMapper"] ∧
+    c05CseClasses.map (·.name) =
+      ["pymbolic.geometric_algebra.mapper.ConstantFoldingMapper", "DerivativeSourceFinder",
+       "Dimensionalizer", "pymbolic.geometric_algebra.mapper.EvaluationMapper",
+       "NablaComponentToUnitVector", "PymbolicToSympyLikeMapper",
+       "CommutativeConstantFoldingMapper", "pymbolic.mapper.constant_folder.ConstantFoldingMapper",
+       "CachedDependencyMapper", "DependencyMapper", "DifferentiationMapper",
+       "CachedEvaluationMapper", "CachedFloatEvaluationMapper",
+       "pymbolic.mapper.evaluator.EvaluationMapper", "FloatEvaluationMapper"] := by
+  decide
+
+/-- **The cache wraps every handler — by MRO.**  For every `CachedMapper` subclass of the current
+source except the one listed in `c05BrokenCall`, Python's attribute look-up along the regenerated
+MRO (first class whose body defines the name) gives: `__call__` and `rec` are both
+`CachedMapper.__call__` (top-level calls AND the `self.rec` calls inside every inherited handler go
+through the look-up), the key is `CachedMapper.get_cache_key`, the fallback path is
+`Mapper.rec_fallback`, and `__init__` reaches the creation of `_cache`.  So
+`cache_protocol_current` — hence `cached_refines_plain`, `at_most_once` — is about each of them:
+cached identity / combine / collector / walk / dependency / evaluation / substitution mappers, the
+flop and node counters. -/
+theorem cache_wraps_handlers_current_partial :
+    ∀ c ∈ c05CachedClasses, c.name ∉ c05BrokenCall → c05Wrapped c = true := by
+  decide
+
+/-- **Finding** (`cached-stringify-call-unbound`): `CachedStringifyMapper(StringifyMapper,
+CachedMapper)` defines its own `__call__`, which hands over to `CachedMapper.__call__` WITHOUT
+passing the instance (`CachedMapper.__call__(expr, prec, *args, **kwargs)`): every top-level call
+raises `AttributeError` where `StringifyMapper` returns the text; only `rec` (inherited) is the
+memoizing dispatcher. -/
+theorem cached_stringify_call_cex :
+    ∃ c ∈ c05CachedClasses, c.name = "CachedStringifyMapper" ∧ c05Wrapped c = false ∧
+      c05Resolve c05Defines "__call__" c.mro
+        = some "pymbolic.mapper.stringifier.CachedStringifyMapper.__call__" ∧
+      c05Resolve c05Defines "rec" c.mro = some cmCall ∧
+      c05CallOverrides = [⟨"CachedStringifyMapper", "CachedMapper", false⟩] := by
+  refine ⟨_, List.mem_of_getElem? (i := 11) rfl, ?_⟩
+  decide
+
+/-- **The CSE mix-in wraps the common-subexpression handler — by MRO.**  For every class of the
+current source that inherits `CSECachingMapperMixin` (the evaluator and its cached variants, the
+dependency mappers, the differentiation mapper, the constant folders, …) `map_common_subexpression`
+resolves to the mix-in's caching method — no `IdentityMapper`/`CombineMapper`/`WalkMapper` handler
+of that name comes first on the MRO — and `map_common_subexpression_uncached` to a concrete
+handler, not the mix-in's abstract stub. -/
+theorem cse_mixin_wraps_current :
+    ∀ c ∈ c05CseClasses,
+      c05Resolve c05Defines "map_common_subexpression" c.mro
+        = some "pymbolic.mapper.CSECachingMapperMixin.map_common_subexpression" ∧
+      (c05Resolve c05Defines "map_common_subexpression_uncached" c.mro).isSome = true ∧
+      c05Resolve c05Defines "map_common_subexpression_uncached" c.mro
+        ≠ some "pymbolic.mapper.CSECachingMapperMixin.map_common_subexpression_uncached" := by
+  decide
+
+/-- non-vacuity of the resolution: were `IdentityMapper` to come before the mix-in, its handler
+would shadow the caching method -/
+example :
+    c05Resolve c05Defines "map_common_subexpression"
+      ["pymbolic.mapper.IdentityMapper", "CSECachingMapperMixin"]
+      = some "pymbolic.mapper.IdentityMapper.map_common_subexpression" ∧
+    c05Resolve c05Defines "map_common_subexpression"
+      ["CSECachingMapperMixin", "pymbolic.mapper.IdentityMapper"]
+      = some "pymbolic.mapper.CSECachingMapperMixin.map_common_subexpression" := by
+  decide
+
+/-- **Finding** (`deprecated-mixin-key-ignores-type`): the deprecated `CachingMapperMixin` indexes
+its `result_cache` with `expr` alone; that key does not separate `4` from `4.0`. -/
+theorem deprecated_mixin_key_cex :
+    c05DeprecatedMixinKey = some [.part .expr] ∧
+    c05TupleEq [.part .expr] ⟨.const (.int 4), {}⟩ ⟨.const (.flt "4.0" 4 1), {}⟩ = true ∧
+    Key.eq ⟨.const (.int 4), {}⟩ ⟨.const (.flt "4.0" 4 1), {}⟩ = false := by
+  decide
+
+/-! #### the optimizer, regenerated -/
+
+/-- the option names of `optimize_mapper` in the current source are the five the model has, all
+off by default -/
+theorem optimizer_options_current :
+    c05OptOptions = [("drop_args", false), ("drop_kwargs", false), ("inline_rec", false),
+                     ("inline_cache", false), ("inline_get_cache_key", false)] := by
+  decide
+
+/-- **The rewriting loop of the current `optimize_mapper` is `optimize`.**  The steps the source
+applies to every method — the in-line edit of the parameter list, then `_VarArgsRemover`, then
+`_CacheKeyInliner` (only when a key expression was found, which is computed only under
+`inline_get_cache_key`), then `_RecInliner` — read from the source in that order with the options
+each receives, compose to the model's `optimize`. -/
+theorem optimizer_pipeline_current (o : Opts) (c : Code) :
+    c05RunPasses o c05OptPasses c = some (optimize o c) ∧
+    c05CacheKeyExprWhen = ("inline_get_cache_key and 'get_cache_key' in method_defs",
+                           "_get_cache_key_expr(method_defs['get_cache_key'])") := by
+  have h : c05OptPasses = c05ExpectedPasses := by decide
+  refine ⟨by rw [h]; exact c05RunPasses_expected o c, by decide⟩
+
+/-- the four option combinations of a two-flag transformer, each on every probe expression -/
+def c05ProbeGrid : List (Bool × Bool × Disp) :=
+  [(false, false), (false, true), (true, false), (true, true)].flatMap fun ab =>
+    c05ProbeDisps.map fun d => (ab.1, ab.2, d)
+
+/-- **`_VarArgsRemover` of the current source is `Disp.dropStar`**: the live transformer class, run
+on every dispatch expression of the model's syntax (56 expressions × 4 settings), removes `*args` /
+`**kwargs` from every call exactly as the model's function does. -/
+theorem varargs_remover_current :
+    c05VarArgsRemoverRows.map (fun r => (r.a, r.b, r.input)) = c05ProbeGrid ∧
+    ∀ r ∈ c05VarArgsRemoverRows, r.input.dropStar r.a r.b = r.output := by
+  set_option maxRecDepth 20000 in decide
+
+/-- **`_RecInliner` of the current source is `Disp.inlineRecCache`**: on every probe expression
+and every setting of (`inline_rec`, `inline_cache`) the live transformer replaces each
+`self.rec(…)` by the in-line method look-up and/or wraps it in a look-up of the hard-wired key
+`(type(expr), expr)` exactly as the model's function does, and touches nothing else. -/
+theorem rec_inliner_current :
+    c05RecInlinerRows.map (fun r => (r.a, r.b, r.input)) = c05ProbeGrid ∧
+    ∀ r ∈ c05RecInlinerRows, r.input.inlineRecCache r.a r.b = r.output := by
+  set_option maxRecDepth 20000 in decide
+
+/-- **`_CacheKeyInliner` of the current source is `Disp.inlineKey`**, for the four key tuples of
+the user classes. -/
+theorem cache_key_inliner_current :
+    c05CacheKeyInlinerRows.map (fun r => (r.body, r.input)) =
+      ([(false, false), (false, true), (true, false), (true, true)].flatMap fun ab =>
+        c05ProbeDisps.map fun d => ((Code.user ab.1 ab.2).getKeyBody, d)) ∧
+    ∀ r ∈ c05CacheKeyInlinerRows, r.input.inlineKey r.body = r.output := by
+  set_option maxRecDepth 20000 in decide
+
+/-- all option sets × the four user classes, in the order the extractor enumerates them -/
+def c05OptGrid : List (Opts × Bool × Bool) :=
+  let bs := [false, true]
+  bs.flatMap fun ka => bs.flatMap fun kk =>
+    bs.flatMap fun a => bs.flatMap fun b => bs.flatMap fun c => bs.flatMap fun d => bs.map fun e =>
+      (⟨a, b, c, d, e⟩, ka, kk)
+
+/-- **What `optimize_mapper` really wrote, all 32 option sets × 4 classes.**  The source of the
+class the live optimizer produced (`_MODULE_SOURCE_CODE`), read back — signature and tuple of
+`get_cache_key`, signature and look-up/dispatch of `__call__` (= `rec`), handler signature and the
+expression every `self.rec(child, …)` site became — is, for each of the 128 applications, exactly
+the model's `optimize o (Code.user keyArgs keyKwargs)`. -/
+theorem optimizer_rewrites_current :
+    c05OptRows.map (fun r => (r.opts, r.keyArgs, r.keyKwargs)) = c05OptGrid ∧
+    ∀ r ∈ c05OptRows, optimize r.opts (Code.user r.keyArgs r.keyKwargs) = r.code := by
+  set_option maxRecDepth 20000 in decide
+
+/-- **Optimizer transparency, stated on the regenerated code.**  For every class the live
+optimizer produced (every row of `c05OptRows`) and all calls the option set allows: every dispatch
+computes its keys without raising, two dispatches share a cache entry only if their original keys
+are equal, and — unless `inline_rec` is used without `inline_cache` — whenever they are. -/
+theorem optimizer_preserves_current_partial :
+    ∀ r ∈ c05OptRows, ∀ (t1 t2 : Bool) (k1 k2 : Key),
+      Allowed r.opts r.keyArgs r.keyKwargs k1 = true →
+      Allowed r.opts r.keyArgs r.keyKwargs k2 = true →
+      ∃ ks1 ks2, siteKeys r.code t1 k1 = .ok ks1 ∧ siteKeys r.code t2 k2 = .ok ks2 ∧
+        (shares ks1 ks2 = true → Key.eq k1 k2 = true) ∧
+        ((r.opts.inlineRec = true → r.opts.inlineCache = true) →
+          shares ks1 ks2 = Key.eq k1 k2) := by
+  intro r hr t1 t2 k1 k2 h1 h2
+  rw [← optimizer_rewrites_current.2 r hr]
+  exact optimizer_preserves_partial r.opts r.keyArgs r.keyKwargs t1 t2 k1 k2 h1 h2
+
+/-- non-vacuity: the row of `inline_rec + inline_cache` on the stock-key class has the hard-wired
+two-component key at its `self.rec` sites (findings `optimizer-inline-cache-ignores-args`,
+`optimizer-inline-cache-key-mismatch`) -/
+example : ∃ r ∈ c05OptRows, r.opts = { inlineRec := true, inlineCache := true } ∧
+    r.keyArgs = true ∧ r.keyKwargs = true ∧
+    r.code.recSite = .cached (.tuple [.ty, .expr]) (.method true true) ∧
+    r.code.callBody = .cached (.getKeyCall true true) (.method true true) := by
+  refine ⟨_, List.mem_of_getElem? (i := 96 + 6) rfl, ?_⟩
+  decide
 
 end PV.C05
